@@ -71,9 +71,10 @@ struct counting_integrand
     T operator()(hep::mc_point<T> const& p) const
     {
         ++calls();
-        points().push_back(p.point());
+        if (keep_points()) points().push_back(p.point());
         return value(p.point()[0]);
     }
+    static bool& keep_points() { static bool k = true; return k; }
     // a cut (exactly zero on part of the domain) and a non-finite region: the work split must not depend on what
     // the integrand returns
     static T value(T x)
@@ -197,6 +198,40 @@ static void part_b(report& r, int kind, sz total, int world)
     if (total % world) r.distinct(vf::hash_str(id));
 }
 
+// a total beyond 2^31 through the real mpi_plain (thorough tier: 2^31 + 3 evaluations per execution): the share each
+// rank evaluates is computed inside the integrators, in whatever integer type they use
+static void part_b_large(report& r, sz total, int world)
+{
+    std::string const id = "mpi_plain float total=" + std::to_string(total) + " world=" + std::to_string(world) + " (large)";
+    if (!r.want(id)) return;
+    r.eval();
+    using T = float;
+    using E = vf::script_engine;
+    std::vector<sz> per_rank(world), reported(world);
+    std::vector<std::uint64_t> end_pos(world);
+    counting_integrand<T>::keep_points() = false;
+    vf::mpi_env env(world);
+    auto outcome = env.run([&](int rank) {
+        counting_integrand<T>::calls() = 0;
+        auto chk = hep::mpi_plain(MPI_COMM_WORLD, hep::make_integrand<T>(counting_integrand<T>(), 1), std::vector<sz>{total}, hep::make_plain_chkpt<T, E>(), vf::never_stop_mpi());
+        per_rank[rank] = counting_integrand<T>::calls(); reported[rank] = chk.results().back().calls(); end_pos[rank] = chk.generator().position();
+    });
+    counting_integrand<T>::keep_points() = true;
+    if (!outcome.ok) { r.violate("mpi-run-failed", id, outcome.what); return; }
+    sz sum = 0;
+    for (int k = 0; k != world; ++k)
+    {
+        sum += per_rank[k];
+        if (per_rank[k] != share(total, k, world))
+            r.violate("evaluations-differ-from-the-share-implied-by-discard_before", id, id + ": rank " + std::to_string(k) + " evaluated " + std::to_string(per_rank[k]) + " points, its share is " + std::to_string(share(total, k, world)));
+        if (end_pos[k] != total) r.violate("rank-does-not-end-at-total", id, id + ": rank " + std::to_string(k) + " ends at stream position " + std::to_string(end_pos[k]));
+        if (reported[k] != total) r.violate("calls-do-not-sum-to-total", id, id + ": reported calls " + std::to_string(reported[k]));
+    }
+    if (sum != total) r.violate("calls-do-not-sum-to-total", id, id + ": the ranks evaluated " + std::to_string(sum) + " points");
+    r.validated();
+    r.distinct(vf::hash_str(id));
+}
+
 int main(int argc, char** argv)
 {
     auto const a = vf::parse_args(argc, argv);
@@ -283,6 +318,7 @@ int main(int argc, char** argv)
                 part_b<double>(r, kind, t, w);
                 if (a.thorough()) { part_b<float>(r, kind, t, w); part_b<long double>(r, kind, t, w); }
             }
+        if (a.thorough() || a.replay) part_b_large(r, (sz(1) << 31) + 3, 4);
     }
 
     if (a.shard == 0)
